@@ -126,6 +126,9 @@ def formulas(tier):
                 echains.append([lit, e])
             echains.append([e, lit])
     echains.append([("lit", "+", 1)])
+    # two literals: the last one wins (as at the top level)
+    one = ("T", "+", ("L",))
+    echains += [[("lit", "+", 1), one, ("lit", "+", 0)], [("lit", "+", 1), one, ("lit", "-", 1)], [one, ("lit", "+", 0), ("lit", "+", 1)], [("lit", "+", 0), one, ("lit", "+", 1)]]
     if tier != "quick":
         for e1 in eatoms[:1]:
             for e2 in eatoms[:1]:
